@@ -269,3 +269,12 @@ V("C06", "switch_action_first_model_only", "violation", (SYSTEM, "            in
 V("C13", "psse_first_load_only", "violation", ("andes/io/psse.py", "        out['PQ'].append(param)\n", "        out['PQ'].append(param)\n        break\n"), rule="C13.universal")
 V("C15", "replay_pointer_not_resynced", "violation", (TDS, "        if self.data_csv is not None:\n            self.k_csv = 0\n", ""), rule="C15.replay")
 V("C15", "benign_replay_peek", "silent", (TDS, "        if self.data_csv is not None:\n            self.k_csv = 0\n", "        if self.data_csv is not None:\n            self.k_csv = self.k_csv - 1\n"))
+V("C09", "history_derivative_wrong_dt", "violation", (DISC, "            self.v[:] = (self._v_mem[:, 1] - self._v_mem[:, 0]) / (self.t[1] - self.t[0])", "            self.v[:] = (self._v_mem[:, 1] - self._v_mem[:, 0]) / self.t[1]"), rule="C09.history")
+V("C09", "history_average_rectangle", "violation", (DISC, "            self.v[:] = 0.5 * np.sum((self._v_mem[:, 1-nt:] + self._v_mem[:, -nt:-1]) *", "            self.v[:] = np.sum((self._v_mem[:, 1-nt:]) *"), rule="C09.history")
+V("C09", "history_delay_repeat_shifts", "violation", (DISC, "        elif dae_t == self.t[-1]:\n            self._v_mem[:, -1] = self.u.v\n", "        elif dae_t == self.t[-1]:\n            self._v_mem[:, :-1] = self._v_mem[:, 1:]\n            self._v_mem[:, -1] = self.u.v\n"), rule="C09.history")
+V("C09", "history_delay_time_stamp_not_moved", "violation", (DISC, "                    self.t[idx] = t_interp\n", ""), rule="C09.history")
+V("C09", "history_derivative_rewind_not_reset", "violation", (DISC, "        if (dae_t == 0) or (self.rewind is True):", "        if (dae_t == 0):"), rule="C09.history")
+V("C09", "benign_history_delay_shift_idiom", "silent", (DISC, "                self.t[:-1] = self.t[1:]\n                self.t[-1] = dae_t\n", "                self.t = np.append(self.t[1:], dae_t)\n"))
+V("C09", "history_sampling_int_time", "violation", (DISC, "        self._last_t = np.array([0.0])\n", "        self._last_t = np.array([0])\n"), rule="C09.history")
+V("C09", "history_sampling_rewind_keeps_time", "violation", (DISC, "            self._last_t[0] = self._prev_t[0]\n", "            self._last_t[0] = dae_t\n"), rule="C09.history")
+V("C09", "history_sampling_nonstrict", "violation", (DISC, "            do_sample = (dae_t - self.offset - self._last_t) > self.interval", "            do_sample = (dae_t - self.offset - self._last_t) > 0"), rule="C09.history")
